@@ -22,7 +22,7 @@ IDS = ('Water', 'Ethanol', 'Methanol', 'Octane', 'Acetone', 'Toluene')
 
 
 def required(tier):
-    return ['mix', 'mix:single-inlet', 'mix:Q', 'mix:heat-object', 'mix:pressure', 'separate', 'set-H', 'set-h', 'set-S', 'set-current', 'multi-phase',
+    return ['set-zero', 'mix-zero', 'mix', 'mix:single-inlet', 'mix:Q', 'mix:heat-object', 'mix:pressure', 'separate', 'set-H', 'set-h', 'set-S', 'set-current', 'multi-phase',
             'mix2:liquid+gas', 'mix2:multi-phase-inlet', 'mix2:multi-phase-receiver', 'mix2:stale-receiver', 'mix2:receiver-not-first-or-twice', 'mix2:conserve_phases', 'mix2:several-heat-objects',
             'mix2:Q-number-and-heat-objects', 'mix2:Q-with-only-the-receiver', 'mix2:form-sum', 'mix2:form-add', 'mix2:form-iadd', 'sep2:other-in-another-phase', 'sep2:multi-phase', 'sep2:self',
             'sep2:empty-other', 'sep2:isub', 'set-Hnet', 'set2:target-at-end-of-range', 'multi-phase2:empty-phase', 'multi-phase2:one-non-empty-phase', 'multi-phase2:one-phase', 'multi-phase2:L']
@@ -523,8 +523,73 @@ def run_case2(case, rec):
         rec.exception(t.rstrip('2') if t != 'setm2' else 'setm', e, what=f'{t} case raised {type(e).__name__}: {str(e)[:160]}')
 
 
+# ---------------------------------------------------------------------------------------------------------------------
+# third generation: the value 0 (the reference state is a legitimate target: every chemical here has a liquid reference phase, so a liquid stream has H = 0 at 298.15 K)
+
+def gen_case3(rng):
+    n = len(IDS)
+    flows = [0.0 if rng.random() < 0.4 else round(10 ** rng.uniform(-1, 2), 4) for _ in range(n)]
+    if not any(flows): flows[rng.randrange(n)] = 5.0
+    t = rng.choice(['set0', 'set0', 'mix0'])
+    c = {'t': t + '3', 'flows': flows, 'T': round(rng.uniform(280, 360), 2), 'P': rng.choice([101325., 5e4, 3e5]), 'which': rng.choice(['H', 'h']), 'multi': rng.random() < 0.4}
+    if t == 'mix0':
+        c['ins'] = [[0.0 if rng.random() < 0.4 else round(10 ** rng.uniform(-1, 2), 4) for _ in range(n)] for _ in range(rng.randrange(1, 4))]
+        for f in c['ins']:
+            if not any(f): f[rng.randrange(n)] = 3.0
+        c['via'] = rng.choice(['mix_from', 'mix_from', 'Q-cancels'])
+    return c
+
+
+def run_case3(case, rec):
+    rec.begin_case(case)
+    th = thermo_of(IDS); tmo.settings.set_thermo(th)
+    def liquid(flows, T, P, multi=False):
+        if multi:
+            st = tmo.MultiStream(None, phases=('g', 'l'), T=T, P=P, thermo=th)
+            for i, v in zip(IDS, flows):
+                if v: st.imol['l', i] = v
+            return st
+        st = tmo.Stream(None, phase='l', T=T, P=P, thermo=th)
+        for i, v in zip(IDS, flows):
+            if v: st.imol[i] = v
+        return st
+    with np.errstate(all='ignore'):
+        if case['t'] == 'set03':
+            st = liquid(case['flows'], case['T'], case['P'], case['multi'])
+            which = case['which']; tag = which + ('/multi' if case['multi'] else '')
+            try:
+                setattr(st, which, 0.0)
+                back = getattr(st, which); C = st.C
+            except Exception as e:
+                rec.exception('set-zero', e, what=f'{which} = 0 raised {type(e).__name__}: {str(e)[:120]}'); return
+            rec.hit('set-zero')
+            bound = 1e-5 * C if which == 'H' else 1e-5 * C / st.F_mol
+            rec.check(abs(back) <= bound, 'set-' + which, 'read-back/zero/' + tag, f'{which} = 0 on a liquid stream at T={case["T"]}: reading gives {back!r}, T is {st.T!r} (expected 298.15)', residual=abs(back) / max(bound / 1e-5, 1e-300))
+            rec.check(abs(st.T - 298.15) <= 1e-4, 'set-' + which, 'T/zero/' + tag, f'{which} = 0: T = {st.T!r}, the reference temperature is 298.15 K')
+            rec.mark_nontrivial(case_hash(case))
+        else:
+            ins = [liquid(f, 298.15, case['P']) for f in case['ins']]
+            recv = liquid(case['flows'], case['T'], case['P'], case['multi'])     # stale content at another temperature
+            try:
+                if case['via'] == 'Q-cancels':
+                    hot = liquid(case['ins'][0], min(case['T'] + 40, 370), case['P'])
+                    Q = -hot.H
+                    recv.mix_from([hot], Q=Q)
+                    exp = 0.0
+                else:
+                    recv.mix_from(ins)
+                    exp = 0.0
+                H = recv.H; C = recv.C
+            except Exception as e:
+                rec.exception('mix-zero', e, what=f'mix_from with zero total enthalpy raised {type(e).__name__}: {str(e)[:120]}'); return
+            rec.hit('mix-zero')
+            rec.check(abs(H - exp) <= 1e-5 * C, 'mix', f'enthalpy/zero-total/{case["via"]}' + ('/multi-receiver' if case['multi'] else ''),
+                      f'mix_from of inlets whose enthalpies (plus Q) add up to exactly 0 into a receiver that was at {case["T"]} K: H out = {H!r}, T out = {recv.T!r} (expected 298.15)', residual=abs(H - exp) / max(C, 1e-300))
+            rec.mark_nontrivial(case_hash(case))
+
+
 def replay(case, rec):
-    (run_case2 if case['t'].endswith('2') else run_case)(case, rec)
+    (run_case3 if case['t'].endswith('3') else run_case2 if case['t'].endswith('2') else run_case)(case, rec)
 
 
 def run(rec, rng, tier, shard, nshards):
@@ -545,3 +610,10 @@ def run(rec, rng, tier, shard, nshards):
         except Exception as e:
             rec.exception('harness', e, what=f'harness error: {type(e).__name__}: {e}')
         if i % 233 == 0: rec.sample(case)
+    # third generation (appended): the value 0
+    for i in range(200 if tier == 'quick' else 2000):
+        case = gen_case3(rng)
+        try:
+            run_case3(case, rec)
+        except Exception as e:
+            rec.exception('harness', e, what=f'harness error: {type(e).__name__}: {e}')
